@@ -93,11 +93,15 @@ type c17sim struct {
 	srv   *simredis.Server
 	extra []*simredis.Server // further doubles an operation talks to (source nodes); never crashed
 	viol  *Violation
+	prop  string // property the run reports under ("" = C17)
 }
 
 func (c *c17sim) setViolation(rule, sig, format string, a ...any) {
 	if c.viol == nil {
-		c.viol = &Violation{Property: "C17", Rule: rule, Sig: sig, Msg: fmt.Sprintf(format, a...)}
+		if c.prop != "" && c.prop != "C17" { // the mode switch is also checked as a C14 stratum (the resume point never moves backwards)
+			rule = c.prop + rule[3:]
+		}
+		c.viol = &Violation{Property: rule[:3], Rule: rule, Sig: sig, Msg: fmt.Sprintf(format, a...)}
 		c.r.Logf("VIOLATION %s: %s", rule, c.viol.Msg)
 	}
 }
